@@ -67,7 +67,7 @@ Definition evolve_g (g : arena) (e : event) : arena :=
 
 Definition evolve_w (g : arena) (w : weights A) (e : event) : weights A :=
   match e with
-  | Build _ wn => fun n k => if n =? length g then wn k else w n k
+  | Build _ wn => let len := length g in fun n k => if n =? len then wn k else w n k
   | _ => w
   end.
 
